@@ -201,6 +201,18 @@ fn probe<F: UnitTag + Convert<T> + 'static, T: UnitTag + 'static>(obs: &[Obs], o
         out.push(mk("liar", vec![], rec_of(&Liar::<F>(mode, PhantomData).with_unit::<T>())));
     }
     out.push(mk("string", vec![], rec_of(&Stringy::<F>(PhantomData).with_unit::<T>())));
+    // the same through distributions of 1-3 such values (inline and heap storage), bare and
+    // under a declared unit: the distribution itself has to notice
+    for mode in 0..4u8 {
+        let n = 1 + (mode as usize + obs.len()) % 3;
+        let d: Distribution<Liar<F>> = (0..n).map(|_| Liar::<F>(mode, PhantomData)).collect();
+        out.push(mk("liar", vec![], rec_of(&d)));
+        let d0: metrique_writer::value::VecDistribution<Liar<F>> =
+            (0..(1 + (n % 2))).map(|_| Liar::<F>(mode, PhantomData)).collect();
+        out.push(mk("liar", vec![], rec_of(&d0.with_unit::<T>())));
+    }
+    let ds: Distribution<Stringy<F>> = (0..(1 + obs.len() % 2)).map(|_| Stringy::<F>(PhantomData)).collect();
+    out.push(mk("string", vec![], rec_of(&ds)));
 }
 
 fn probe_roundtrip<F: UnitTag + Convert<T> + 'static, T: UnitTag + Convert<F> + 'static>(
@@ -590,7 +602,7 @@ pub fn run(ctx: &mut Ctx) {
     ctx.explore(
         SubCfg::new(
             "c19-all-pairs",
-            "each case = one observation list (0-4 observations: unsigned incl. 2^53+-1 and u64::MAX, floats log-uniform over 1e-300..1e300, subnormal, +-0, non-finite, repeated with occurrences 0..u64::MAX) pushed through ALL 435 ordered convertible pairs (3x3 time, 20x20 bit/byte(/s), None->26) x {WithUnit direct, Distribution, Mean, Option Some/None, A->B->A round trip (409 pairs), liar value (writes another kind / the same kind at another scale / the sibling kind at the same scale), string value}. Oracle: exact integer scale table; emitted*scale(to) == original*scale(from) within 4 ulp, identical at ratio 1, occurrences and dimensions untouched, unit name = declared and every tag's unit constant carries the name and scale its identifier promises (own literal table), liar/string => validation error. Non-trivial = ratio != 1 with a repeated or multi-observation value",
+            "each case = one observation list (0-4 observations: unsigned incl. 2^53+-1 and u64::MAX, floats log-uniform over 1e-300..1e300, subnormal, +-0, non-finite, repeated with occurrences 0..u64::MAX) pushed through ALL 435 ordered convertible pairs (3x3 time, 20x20 bit/byte(/s), None->26) x {WithUnit direct, Distribution, Mean, Option Some/None, A->B->A round trip (409 pairs), liar value (writes another kind / the same kind at another scale / the sibling kind at the same scale), string value, each also as the elements of a Distribution of 1-3 values, bare and under a declared unit}. Oracle: exact integer scale table; emitted*scale(to) == original*scale(from) within 4 ulp, identical at ratio 1, occurrences and dimensions untouched, unit name = declared and every tag's unit constant carries the name and scale its identifier promises (own literal table), liar/string => validation error. Non-trivial = ratio != 1 with a repeated or multi-observation value",
             if q { 3_000 } else { 200_000 },
         )
         .threads(ctx.tier.pick(8, 16))
